@@ -108,15 +108,21 @@ func (p *TFramedTransport) Read(buf []byte) (l int, err error) {
 		}
 	}
 	if p.frameSize < uint32(len(buf)) {
+		// The rest of the frame is delivered in full (the underlying
+		// transport may return it in several pieces), together with an
+		// error telling that the frame ended.
 		frameSize := p.frameSize
 		tmp := make([]byte, p.frameSize)
-		l, err = p.Read(tmp)
-		copy(buf, tmp)
+		l, err = io.ReadFull(p.reader, tmp)
+		p.frameSize = p.frameSize - uint32(l)
+		copy(buf, tmp[:l])
 		if err == nil {
 			err = thrift.NewTTransportExceptionFromError(
 				fmt.Errorf("frugal: not enough frame (size %d) to read %d bytes", frameSize, len(buf)))
-			return
+		} else {
+			err = thrift.NewTTransportExceptionFromError(err)
 		}
+		return
 	}
 	got, err := p.reader.Read(buf)
 	p.frameSize = p.frameSize - uint32(got)
